@@ -43,9 +43,9 @@ P = {
     "C10": ("proof", "Theorems, for every AST: validate_ast = Ok ⇔ WellFormed (Spec/WellFormed.lean: exactly one start naming a defined nonterminal, exactly one terminal enum, every reference defined in its own namespace, pairwise distinct top-level names, per-enum distinct variant names and symbol sequences, capitalisation) — C10_ok_sound, C10_ok_iff_wellFormed; validate_ast = Err e ⇒ Truthful e (variant, name or sequence and both byte positions describe a violation present at those positions, with any combination of simultaneous violations) — C10_err_truthful; Truthful e ⇒ ¬WellFormed (the two specifications agree); no panicking path. "
             "Tie to the code: the model's answer is compared with the implementation's on files with 0–3 injected violations of 28 kinds (incl. cross-namespace names), and Truthful/WellFormed are also evaluated by an independent Python oracle on the implementation's answers.",
             "§7 C10", "Ok⇔WellFormed + Err⇒Truthful theorems; model=impl on injected violations"),
-    "C11": ("proof", "Theorem (every grammar, every automaton): a conflict report names a state of the automaton, two items of that state, and they demand different parser actions on the same lookahead column (C11_payload). "
-            "Partial: 'attached automaton = LALR(1) automaton' (§6.3) and 'attached file = validated input' are checked on every conflicting grammar of the run against the oracle and the model.",
-            "§7 C11", "conflict-payload theorem + LALR(1) isomorphism oracle"),
+    "C11": ("proof", "Theorems: a conflict report names a state of the automaton, two items of that state, and they demand different parser actions on the same lookahead column (C11_payload; every grammar, every automaton); for every validated file the attached automaton — the machine validated_ast_to_machine built, conflicts or not — has exactly the item sets (lookaheads included) generated by the LALR(1) propagation rules over its transition graph w.r.t. a closed and sound FIRST map, one state per core, functional transitions (C11_attached_automaton, from the generator invariants). "
+            "Partial: equivalence of that characterisation with the canonical-LR(1)-merged-by-core definition, and 'attached file = validated input', are checked on every conflicting grammar of the run against the independent LALR(1) construction and the model.",
+            "§6.2, §7 C11", "conflict-payload theorem + exact attached automaton + LALR(1) isomorphism oracle"),
     "C12": ("proof", "Theorems: the attribute token is exactly the source slice the scanner specification delimits with a bracket stack (via C08_tokenize_eq_spec); every emitted type item carries exactly its declaration's attribute texts, in order (C12_emit); render prints them one per line directly before the item. "
             "Partial: order preservation through cst_to_ast is compared, not proved; verbatim occurrence is checked on the emitted text for attributes with non-ASCII text and nested brackets.",
             "§7 C12", "tokenizer theorem + structure theorem + verbatim check on emitted text"),
